@@ -287,6 +287,16 @@ Section CrashAmendProofs.
       eapply same_world_trans; [exact Wc | exact Wr].
     Qed.
 
+    (* a dispatched step is PENDING: the refined crash states are crash states *)
+    Lemma crash_state_ad_a (g : bool) (y c : asys) :
+      crash_state_ad run amend fails g proj y c -> crash_state_a run amend fails g proj y c.
+    Proof.
+      intros [k | k s junk dyn Hk Hd Hdyn]; [apply CSA_between|].
+      apply CSA_inside; [exact Hk | | exact Hdyn].
+      unfold dispatched, decide in Hd. destruct (stt (abase (prefixg g proj k y)) (sid s)); [reflexivity|].
+      cbn in Hd. discriminate.
+    Qed.
+
     (* ---- 4. the interrupted step is never skipped ------------------------------------------ *)
     Lemma a_step_tr_other (g : bool) (x : step) (y : asys) (id : N) :
       id <> sid x -> tr (abase (stepg g proj x y)) id = tr (abase y) id.
@@ -407,3 +417,24 @@ Proof.
   destruct (resync_a_inv mix_run (amend_tab ca_tab) (fail_tab ca_ftab) ca_proj ca_wf_a _ (ca_w script 2) H2) as (H3 & _ & _ & F3).
   split; [exact H3 | intros q _; apply F3].
 Qed.
+
+(* ------------------------------------------------------------------------------------------ *)
+(* The gated statement needs "the torn step was dispatched"                                    *)
+(* ------------------------------------------------------------------------------------------ *)
+(* The D28 project: script version 5 of step 2 amends the output 10 of step 1; version 6 amends
+   nothing; the source of step 1 is gone.  The gated build holds step 2 back (it remembers the edge to
+   the unbuilt file 10).  A "torn" step 2 -- which cannot happen: it was never dispatched -- would have
+   forgotten the edge, and the restart would run it. *)
+Lemma gated_needs_dispatch_refuted :
+  let y := resync_a p28 (bw28 true w28a empty_asys) w28b in
+  let z := a_build_prefix mix_run (amend_tab tab28) no_fail true p28 1 y in
+  exists s, nth_error p28 1 = Some s /\ stt (abase z) (sid s) = Pending /\
+            dispatched (amend_tab tab28) no_fail true p28 s z = false /\
+            same_result_a_b p28 (restart_a mix_run (amend_tab tab28) no_fail true p28 (torn_a s z (fun _ => None) []))
+                                (a_build mix_run (amend_tab tab28) no_fail true p28 y) = false /\
+            (* the real crash states of this build: only between-points; there the restart agrees *)
+            forallb (fun k => same_result_a_b p28
+                       (restart_a mix_run (amend_tab tab28) no_fail true p28
+                          (a_build_prefix mix_run (amend_tab tab28) no_fail true p28 k y))
+                       (a_build mix_run (amend_tab tab28) no_fail true p28 y)) (seq 0 4) = true.
+Proof. exists (mkStep 2 [2] [] [20]). cbv zeta. repeat split; vm_compute; reflexivity. Qed.
